@@ -91,8 +91,7 @@ def check(case, ctx):
     if case.get("repeat"):
         from rv.props._util import repeat_call
 
-        if not repeat_call(ctx, "acyclic_unroll", "acyclic_unroll", cg.tx.acyclic_unroll, (c,), {}, (ok, r)):
-            return
+        ok, r = repeat_call(ctx, "acyclic_unroll", "acyclic_unroll", cg.tx.acyclic_unroll, (c,), {}, (ok, r))
     if not ok:
         ctx.violation("acyclic_unroll_raised", f"acyclic_unroll raised {r!r}\n{getattr(r, '_tb', '')}")
         return
@@ -116,7 +115,9 @@ def check(case, ctx):
         return
     aux = {}
     for a in extra:
-        f = a[len("c0_aux_in_"):] if a.startswith("c0_aux_in_") else None
+        # the auxiliary input of feedback node f carries f's name (longest node name that is a suffix)
+        cands = sorted((n for n in net.types if a.endswith(n) and a != n), key=len, reverse=True)
+        f = cands[0] if cands else None
         if f is None or f not in net.types or f in aux.values():
             ctx.violation("aux_input_unidentified", f"extra input {a!r} is not the auxiliary input of a distinct circuit node")
             return
